@@ -1816,6 +1816,10 @@ sexp sexp_expt_op (sexp ctx, sexp self, sexp_sint_t n, sexp x, sexp e) {
 #if SEXP_USE_BIGNUMS
   sexp_gc_var1(tmp);
 #endif
+  if (! sexp_numberp(x))
+    return sexp_type_exception(ctx, self, SEXP_NUMBER, x);
+  if (! sexp_numberp(e))
+    return sexp_type_exception(ctx, self, SEXP_NUMBER, e);
 #if SEXP_USE_COMPLEX
   if (sexp_complexp(x) || sexp_complexp(e))
     return sexp_complex_expt(ctx, x, e);
